@@ -38,6 +38,7 @@ ResultOk ==
     [] Ev.op = "min" -> IF Dom = {} THEN ~Ev.ok /\ Ev.err = 1 ELSE Ev.ok /\ Ev.rk = MinOfS(Dom)
     [] Ev.op = "max" -> IF Dom = {} THEN ~Ev.ok /\ Ev.err = 1 ELSE Ev.ok /\ Ev.rk = MaxOfS(Dom)
     [] Ev.op = "size" -> Ev.n = Cardinality(Dom)
+    [] Ev.op = "debug" -> Ev.ok
     [] OTHER -> TRUE
 WalkOk ==
   CASE Ev.op = "walk" -> Ev.out = SortedKV(map)
